@@ -314,7 +314,11 @@ class Envelope:
 
         # Check if given states are part of this envelope
         for s in states:
-            assert s in [self.fock, self.polarization]
+            if s is not self.fock and s is not self.polarization:
+                raise ValueError(
+                    "Given states have to be members of the envelope, "
+                    "use env.fock and env.polarization"
+                )
 
         outcomes = {}
         reshape_shape = []
